@@ -243,10 +243,21 @@ structure ExtTotal (ext : Ext) : Prop where
   num : ∀ d, Total (ext.decodeNumeric d)
   jsonb : ∀ d, Total (ext.parseJSONB d)
 
+/-- the `null` document test reads `u32(data,0)` and `u32(data,4)` only behind `len(data) == 8` -/
+theorem jsonbNilCase_total (data : Bytes) : Total (jsonbNilCase data) := by
+  unfold jsonbNilCase
+  refine total_ite (fun h8 => ?_) (fun _ => total_pure _)
+  refine total_bind (u32_total _ _ (by omega)) fun _ => ?_
+  refine total_ite (fun _ => ?_) (fun _ => total_pure _)
+  refine total_bind (u32_total _ _ (by omega)) fun _ => ?_
+  exact total_ite (fun _ => total_pure _) (fun _ => total_pure _)
+
 theorem decJSONB_total (ext : Ext) (hext : ExtTotal ext) (data : Bytes) : Total (decJSONB ext data) := by
   unfold decJSONB
   refine total_bind (hext.jsonb _) fun v => ?_
-  split <;> exact total_pure _
+  split
+  · exact jsonbNilCase_total data
+  · exact total_pure _
 
 /-- past the short-input guard, a fixed-width type has all its bytes -/
 theorem need {data : Bytes} {oid : Nat} (hs : shortInput data oid = false) (n : Nat)
